@@ -172,8 +172,8 @@ func (c *shardedMap) ExpireAll(ctx context.Context) {
 		b := &c.hashedBuckets[i]
 		b.Lock()
 		for h, v := range b.data {
-			v.E = startTS
-			b.data[h] = v
+			// Entry is replaced and not updated in place, it can be in use by concurrent readers without lock.
+			b.data[h] = &TraitEntry{K: v.K, V: v.V, E: startTS, C: atomic.LoadInt64(&v.C)}
 			cnt++
 		}
 		b.Unlock()
